@@ -92,6 +92,12 @@ class AstToDjangoQVisitor(visitor.NodeVisitor):
 
         return res
 
+    def generic_visit(self, node: ast._Node):
+        ":meta private:"
+        # A node without an explicit visitor method cannot be translated.
+        # Refuse it, instead of silently dropping it from the result:
+        raise ex.UnsupportedNodeException(type(node).__name__)
+
     def visit_Identifier(self, node: ast.Identifier) -> F:
         ":meta private:"
         return F(node.name)
